@@ -283,6 +283,9 @@ def k1_struct(ctx):
                 res['rows'].append({'i': i, 'feat': feat, 'dsl': texts[i], 'problem': 'expansion is not a list of items: %s' % r.get('err')})
                 continue
             rt = skel_table(r, name, concrete)
+            # types are token text on one side and the DSL's spelling on the other: compare without white space
+            model = [x.replace(' ', '') for x in model]
+            rt = [x.replace(' ', '') for x in rt]
             ms, rs = sorted(set(model)), sorted(set(rt))
             if ms != rs or len(model) != len(rt) and False:
                 only_m = [x for x in ms if x not in rs]
